@@ -4,6 +4,9 @@
       then an ERROR from the callee), a meta procedure is called and a call is
       refused: the hypotheses of the C02 history theorems hold and their
       conclusions are non-trivial.
+    - [EndedEx]: session 11 is dropped; the later publication to its topic and
+      the later call of its procedure send it nothing; after it joined again
+      it is served again.
     - [GateEx]: a history with an authorizer that refuses a first CALL:
       [gate_fresh] holds although the gate refuses.
     - [Refute]: the authorizer refuses a further chunk of a pending progressive
@@ -12,7 +15,7 @@
       false of the model (and of router/realm.go authzMessage). *)
 From Nexus Require Import Router.Realm Router.RealmProofs Router.RealmWf Router.RealmStep.
 From Nexus Require Import Router.DealerLib Router.DealerReply Router.DealerTrace.
-From Nexus Require Import Router.RealmTraceLib Router.RealmTrace.
+From Nexus Require Import Router.RealmTraceLib Router.RealmTrace Router.RealmTraceC05.
 From Coq Require Import Lia.
 
 Definition feats (l : list string) : value := VDict [("features", VDict (map (fun f => (f, VBool true)) l))].
@@ -188,3 +191,39 @@ Module Refute.
     apply Hn. vm_compute. discriminate.
   Qed.
 End Refute.
+
+Module EndedEx.
+  Definition cfg0 : config := mkConfig false false false true true false [] None.
+  Definition pre2 : list op :=
+    [OJoin 10 false hello_all; OJoin 11 false hello_all;
+     OMsg 11 (CSubscribe 1 [] "t") 0; OMsg 11 (CRegister 2 [] "p") 0;
+     OMsg 10 (CPublish 3 [] "t" [vnat 1] []) 0].
+  Definition mid2 : list op :=
+    [OMsg 10 (CPublish 4 [("acknowledge", VBool true)] "t" [vnat 2] []) 0].
+  Definition late2 : op := OMsg 10 (CCall 5 [] "p" [] []) 0.
+  Definition post2 : list op :=
+    [OJoin 11 false hello_all; OMsg 11 (CSubscribe 1 [] "t") 0; OMsg 10 (CPublish 6 [] "t" [vnat 3] []) 0].
+  Definition ops2 : list op := pre2 ++ ODrop 11 :: mid2 ++ late2 :: post2.
+
+  Lemma outs : snd (run (init_realm cfg0) ops2) =
+    [[]; []; [(11, RSubscribed 1 1)]; [(11, RRegistered 2 24)];
+     [(11, REvent 1 7 [] [vnat 1] [])];                       (* served while attached *)
+     [];                                                      (* dropped *)
+     [(10, RPublished 4 12)];                                 (* nothing to 11 *)
+     [(10, RError c_CALL 5 [] e_no_such_procedure [] [])];    (* nothing to 11 *)
+     []; [(11, RSubscribed 1 2)];
+     [(11, REvent 2 16 [] [vnat 3] [])]].                     (* joined again: served again *)
+  Proof. vm_compute. reflexivity. Qed.
+
+  Lemma hyps : Forall op_ok ops2 /\ k0 cfg0 + N.of_nat (List.length ops2) <= max_idN /\
+               client (fst (run (init_realm cfg0) pre2)) 11 /\
+               ~ client (fst (run (init_realm cfg0) (pre2 ++ [ODrop 11]))) 11 /\
+               (forall l h, ~ In (OJoin 11 l h) (mid2 ++ [late2])) /\
+               nth_error (snd (run (init_realm cfg0) ops2)) (List.length (pre2 ++ ODrop 11 :: mid2)) =
+               Some [(10, RError c_CALL 5 [] e_no_such_procedure [] [])].
+  Proof.
+    split; [unfold ops2, pre2, mid2, late2, post2; cbn [app]; ops_ok|]. split; [apply N.leb_le; reflexivity|].
+    split; [unfold client; vm_compute; discriminate|]. split; [unfold client; vm_compute; intros H; apply H; reflexivity|].
+    split; [intros l h [H|[H|[]]]; discriminate H|]. vm_compute. reflexivity.
+  Qed.
+End EndedEx.
